@@ -9,8 +9,9 @@ EXTENDS Exec, Json
 
 CONSTANT CheckKeys   \* TRUE: the result map of every return event must equal Exec's (C11)
 
-VARIABLE l
-tvars == <<vars, l>>
+VARIABLES l,     \* position in the trace
+          ph, ps \* history and scenario of the previous completed call of the session (twin comparison, C14)
+tvars == <<vars, l, ph, ps>>
 
 Trace == ndJsonDeserialize("trace.ndjson")
 Ev == Trace[l]
@@ -26,21 +27,44 @@ KeysOf(e) ==
   [x \in {e.keys[i][1] : i \in DOMAIN e.keys} |->
       e.keys[CHOOSE i \in DOMAIN e.keys : e.keys[i][1] = x][2]]
 
-TraceInit == Init /\ l = 1
+TraceInit == Init /\ l = 1 /\ ph = <<>> /\ ps = NoScen
+
+\* C14: "if the tag is never set, behaviour is identical to the corresponding variant without a tag".  A call whose
+\* begin event carries twin = TRUE repeats the previous call of its session (same rules, arguments and rule outcomes)
+\* through the stop-tag variant of the previous call's method; its history must then be the previous call's history.
+NoTagOf == ("ExecuteWithStopTagDirect" :> "Execute")
+        @@ ("ExecuteMixModelWithStopTagDirect" :> "ExecuteMixModel")
+        @@ ("ExecuteSelectedRulesWithControlAndStopTag" :> "ExecuteSelectedRulesWithControl")
+        @@ ("ExecuteSelectedRulesWithControlAndStopTagAsGivenSortedName" :> "ExecuteSelectedRulesWithControlAsGivenSortedName")
+EndsOf(hist) == {hist[i] : i \in {j \in DOMAIN hist : hist[j].ev = "end"}}
+TwinOK(isTwin) ==
+  (isTwin /\ ~tag) =>
+     /\ scen.method \in DOMAIN NoTagOf
+     /\ ps = [scen EXCEPT !.method = NoTagOf[scen.method]]
+     /\ IF scen.method = "ExecuteMixModelWithStopTagDirect"
+        THEN /\ EndsOf(h) = EndsOf(ph) /\ Len(h) = Len(ph)
+             /\ h # <<>> => h[1] = ph[1]
+        ELSE h = ph
 
 TraceSession ==
   /\ IsEvent("session")
   /\ phase \in {"idle", "returned"}
   /\ phase' = "idle"
-  /\ UNCHANGED <<scen, k, pool, nstart, nrun, sfail, nfail, tag, result, h>>
+  /\ h' = <<>> /\ ph' = <<>> /\ ps' = NoScen
+  /\ UNCHANGED <<scen, k, pool, nstart, nrun, sfail, nfail, tag, result>>
 
-TraceBegin  == IsEvent("begin")  /\ BeginCore(ScenOf(Ev)) /\ UNCHANGED h
-TraceStart  == IsEvent("start")  /\ StartCore(Ev.r) /\ UNCHANGED h
-TraceEnd    == IsEvent("end")    /\ EndCore(Ev.r, Ev.out, Ev.val, Ev.st) /\ UNCHANGED h
-TraceReturn == IsEvent("return") /\ ~Ev.panic /\ ReturnCore(Ev.err, IF CheckKeys THEN KeysOf(Ev) ELSE result) /\ UNCHANGED h
+TraceBegin  == /\ IsEvent("begin")  /\ BeginCore(ScenOf(Ev)) /\ h' = <<>>
+               /\ ph' = IF phase = "returned" THEN h ELSE <<>>
+               /\ ps' = IF phase = "returned" THEN scen ELSE NoScen
+TraceStart  == /\ IsEvent("start")  /\ StartCore(Ev.r)
+               /\ h' = Append(h, [ev |-> "start", r |-> Ev.r, out |-> ""]) /\ UNCHANGED <<ph, ps>>
+TraceEnd    == /\ IsEvent("end")    /\ EndCore(Ev.r, Ev.out, Ev.val, Ev.st)
+               /\ h' = Append(h, [ev |-> "end", r |-> Ev.r, out |-> Ev.out]) /\ UNCHANGED <<ph, ps>>
+TraceReturn == /\ IsEvent("return") /\ ~Ev.panic /\ ReturnCore(Ev.err, IF CheckKeys THEN KeysOf(Ev) ELSE result)
+               /\ TwinOK(Ev.twin) /\ UNCHANGED <<h, ph, ps>>
 
 \* hook "result_write" (C19): the result map is written with the engine's lock held
-TraceResWrite == IsEvent("reswrite") /\ Ev.locked = 1 /\ UNCHANGED vars
+TraceResWrite == IsEvent("reswrite") /\ Ev.locked = 1 /\ UNCHANGED <<vars, ph, ps>>
 
 TraceProper == TraceSession \/ TraceBegin \/ TraceStart \/ TraceEnd \/ TraceReturn \/ TraceResWrite
 
@@ -63,7 +87,7 @@ TraceSkip ==
   /\ l' = IF Trace[l].ev = "session" THEN l ELSE NextSession(l)
   /\ scen' = NoScen /\ k' = 1 /\ pool' = {} /\ nstart' = <<>> /\ nrun' = <<>>
   /\ sfail' = 0 /\ nfail' = 0 /\ tag' = FALSE /\ result' = <<>> /\ phase' = "idle"
-  /\ UNCHANGED h
+  /\ h' = <<>> /\ ph' = <<>> /\ ps' = NoScen
 
 TraceNext == TraceProper \/ TraceSkip
 
